@@ -108,3 +108,209 @@ def _c05():
 
 
 PROPS["C05"] = _c05()
+
+
+# ------------------------------------------------------------------------------------------- C12
+VS_SHAPES = {
+    "s0": (0, 0, 0, 0, 0),
+    "s1": (12, 8, 16, 0, 0),
+    "s2": (12, 8, 16, 1, 0),
+    "s3": (12, 8, 16, 0, 16),
+    "s4": (12, 8, 16, 1, 16),
+    "s5": (12, 8, 16, 0, 15),
+    "s6": (12, 8, 16, 0, 17),
+    "s7": (30, 7, 48, 0, 32),
+    "s8": (30, 7, 48, 1, 48),
+    "s9": (300, 7, 304, 0, 0),
+    "s10": (0, 7, 0, 0, 16),
+    "s11": (12, 8, 16, 0, 1),
+    "s12": (12, 8, 16, 0, 32),
+}
+
+
+def vs_desc(sh):
+    w, h, pgb, np, pend = VS_SHAPES[sh]
+    return "virtual sign in ANY state satisfying the representation invariant with sizes: configured %dx%d, %d stored page(s) of %d bytes, %d pending bytes; address, flip style, protocol state (13), chunk counter (u16), recorded type and all bytes symbolic" % (w, h, np, pgb, pend)
+
+
+def vs_unwind(sh, l=0):
+    return 18
+
+
+def vs_rules(sh, l=0):
+    w, h, pgb, np, pend = VS_SHAPES[sh]
+    return [("state_index|op_index|index_of", 15), ("bytes_eq", max(pgb, pend, l, 16) + 2), memcmp(max(pgb, pend + l, 16) + 2)]
+
+
+VS_DATA = [
+    ("s0", [0, 1, 15, 16, 17, 255]),
+    ("s1", [0, 16, 17]),
+    ("s2", [16]),
+    ("s3", [0, 1, 16]),
+    ("s4", [16]),
+    ("s5", [1, 16]),
+    ("s6", [16]),
+    ("s7", [16, 15]),
+    ("s8", [16]),
+    ("s9", [16]),
+    ("s10", [16]),
+]
+VS_QUICK_PLAIN = {"s0", "s1", "s2", "s3", "s5", "s6", "s7"}
+VS_QUICK_DATA = {("s0", 0), ("s0", 16), ("s0", 17), ("s1", 16), ("s3", 16), ("s3", 0), ("s5", 1), ("s5", 16), ("s6", 16), ("s7", 16), ("s9", 16)}
+
+
+def _c12():
+    hs = [H("c12::base_new", "VirtualSign::new for any address and flip style satisfies the invariant", unwind=4)]
+    for sh in VS_SHAPES:
+        hs.append(
+            H(
+                "c12::%s_plain" % sh,
+                vs_desc(sh) + "; then ANY non-data message (all kinds, own or foreign address, all operations, any chunk count)",
+                tier="quick" if sh in VS_QUICK_PLAIN else "thorough",
+                unwind=vs_unwind(sh),
+                unwindset=vs_rules(sh),
+                params={"shape": VS_SHAPES[sh], "message": "plain"},
+            )
+        )
+    for sh, ls in VS_DATA:
+        for l in ls:
+            hs.append(
+                H(
+                    "c12::%s_d%d" % (sh, l),
+                    vs_desc(sh) + "; then a data chunk of %d symbolic bytes at a symbolic offset (16-byte chunks include every configuration block)" % l,
+                    tier="quick" if (sh, l) in VS_QUICK_DATA else "thorough",
+                    unwind=vs_unwind(sh, l),
+                    unwindset=vs_rules(sh, l),
+                    params={"shape": VS_SHAPES[sh], "message": "SendData", "data_len": l},
+                )
+            )
+    kinds = ["DataChunksSent", "Hello", "QueryState", "ReportState", "RequestOperation", "AckOperation", "PixelsComplete", "Goodbye"]
+    for k, kn in enumerate(kinds):
+        hs.append(H("c12::bus2_k%d" % k, "bus of two signs in invariant states (blank sizes; 12x8 mid-transfer with a 15-byte buffer), symbolic addresses; one %s message with symbolic parameters" % kn, tier="quick" if k in (0, 4) else "thorough", unwind=6, unwindset=vs_rules("s5"), params={"signs": 2, "kind": kn}))
+    hs.append(H("c12::bus2_data16", "same bus; one 16-byte data chunk, symbolic bytes and offset", unwind=18, unwindset=vs_rules("s5", 16), params={"signs": 2, "kind": "SendData"}))
+    hs.append(H("c12::ksteps3", "3 symbolic messages (plain or 16-byte chunk) from VirtualSign::new", unwind=5, unwindset=vs_rules("s3"), params={"k": 3}, timeout=1800, mem_gb=20))
+    hs.append(H("c12::ksteps5", "5 symbolic messages (plain or 16-byte chunk) from VirtualSign::new", tier="thorough", unwind=7, unwindset=vs_rules("s3"), params={"k": 5}, timeout=3600, mem_gb=30))
+    return Prop(
+        "C12",
+        ["VirtualSign::process_message and every handler it dispatches to", "VirtualSign::new", "VirtualSignBus::process_message", "Page::from_bytes", "SignType::from_bytes"],
+        "one inductive step from every invariant state in 13 size shapes (sizes 0x0, 12x8, 30x7, 300x7, 0x7; 0-1 stored pages; pending 0/1/15/16/17/32/48 bytes) x every plain message and data chunks of 0/1/15/16/17/255 bytes with symbolic contents and offset; base case; bus of 2 signs; k<=3 (quick) / 5 (thorough) steps from new()",
+        "size shapes not listed (more than one stored page, other dimensions); a logger being installed (log macros are inactive)",
+        [],
+        COMMON_ASSUME + ["one-step pre-states are constrained only by vsign::inv_holds, whose base case and preservation are checked in the same run", "hook: VirtualSign::verif_from_parts / verif_parts (cfg(kani))"],
+        ["c12::"],
+        hs,
+    )
+
+
+PROPS["C12"] = _c12()
+
+
+# ------------------------------------------------------------------------------------------- C13
+def _c13():
+    hs = []
+    for sh in VS_SHAPES:
+        hs.append(
+            H(
+                "c13::%s_plain" % sh,
+                vs_desc(sh) + "; then ANY non-data message; reply, state, every field, pages, buffer and type compared with refmodel::ref_sign_step",
+                tier="quick" if sh in VS_QUICK_PLAIN else "thorough",
+                unwind=vs_unwind(sh),
+                unwindset=vs_rules(sh) + [("snap|old_pages_kept", max(VS_SHAPES[sh][2], VS_SHAPES[sh][4]) + 2)],
+                params={"shape": VS_SHAPES[sh], "message": "plain"},
+            )
+        )
+    for sh, ls in VS_DATA:
+        for l in ls:
+            hs.append(
+                H(
+                    "c13::%s_d%d" % (sh, l),
+                    vs_desc(sh) + "; then a data chunk of %d symbolic bytes at a symbolic offset; compared with refmodel::ref_sign_step" % l,
+                    tier="quick" if (sh, l) in VS_QUICK_DATA else "thorough",
+                    unwind=vs_unwind(sh, l),
+                    unwindset=vs_rules(sh, l) + [("snap|old_pages_kept", max(VS_SHAPES[sh][2], VS_SHAPES[sh][4]) + 2)],
+                    params={"shape": VS_SHAPES[sh], "message": "SendData", "data_len": l},
+                )
+            )
+    return Prop(
+        "C13",
+        ["VirtualSign::process_message and every handler", "VirtualSign::{state,sign_type,pages,address}", "Page::from_bytes", "SignType::from_bytes"],
+        "one step from every invariant state in 13 size shapes x every plain message / data chunks of 0/1/15/16/17/255 symbolic bytes, compared field-for-field (reply, state, dimensions, counter mod 2^16, buffer bytes, stored page bytes, type) with the reference machine; histories of any length follow with C12's induction",
+        "size shapes not listed (more than one stored page before the step, other dimensions)",
+        [],
+        COMMON_ASSUME
+        + [
+            "oracle: refmodel::ref_sign_step, the documented sign-side machine (legal states per operation, count comparison mod 2^16, pages = complete buffers of the configured size)",
+            "pre-states constrained only by vsign::inv_holds (proved inductive by C12 in its own run)",
+            "buffer and counter of a sign parked in ReadyToReset are not compared (they cannot influence anything observable)",
+            "hook: VirtualSign::verif_from_parts / verif_parts (cfg(kani))",
+        ],
+        ["c13::"],
+        hs,
+    )
+
+
+PROPS["C13"] = _c13()
+
+
+# ------------------------------------------------------------------------------------------- C14
+KINDS = ["DataChunksSent", "Hello", "QueryState", "ReportState", "RequestOperation", "AckOperation", "PixelsComplete", "Goodbye"]
+
+
+def _c14():
+    hs = []
+    pairs = {
+        "pa": ("12x8 with a complete 16-byte page buffered + 12x8 with a 15-byte short buffer", [0, 1, 2, 3, 4, 5, 6, 7], [16, 1], 18),
+        "pb": ("blank sizes + 12x8 with one stored page", [0, 1, 2, 4, 6, 7], [16], 18),
+        "pc": ("30x7 with 32 of 48 bytes buffered + 30x7 with one stored page and a full 48-byte buffer", [0, 4], [16], 50),
+    }
+    quick = {"pa_k0", "pa_k1", "pa_k4", "pa_k7", "pa_d16", "pb_k0", "pb_k4", "pb_d16"}
+    for p, (desc, kinds, datas, sz) in pairs.items():
+        rules = [("state_index|op_index|index_of", 15), ("bytes_eq|old_pages_kept|snap", sz + 18), memcmp(sz + 18)]
+        for k in kinds:
+            n = "%s_k%d" % (p, k)
+            hs.append(
+                H(
+                    "c14::" + n,
+                    "bus of 2 signs, each in ANY invariant state (%s), symbolic pairwise distinct addresses and flip styles; one %s message with symbolic parameters; compared with each sign processing it alone" % (desc, KINDS[k]),
+                    tier="quick" if n in quick else "thorough",
+                    unwind=6,
+                    unwindset=rules,
+                    params={"signs": 2, "pair": p, "kind": KINDS[k]},
+                    timeout=1200,
+                    mem_gb=16,
+                    mem_expect=8,
+                )
+            )
+        for l in datas:
+            n = "%s_d%d" % (p, l)
+            hs.append(
+                H(
+                    "c14::" + n,
+                    "bus of 2 signs (%s); one unaddressed data chunk of %d symbolic bytes at a symbolic offset" % (desc, l),
+                    tier="quick" if n in quick else "thorough",
+                    unwind=18,
+                    unwindset=rules,
+                    params={"signs": 2, "pair": p, "kind": "SendData", "data_len": l},
+                    timeout=1200,
+                    mem_gb=16,
+                    mem_expect=8,
+                )
+            )
+    return Prop(
+        "C14",
+        ["VirtualSignBus::process_message", "VirtualSignBus::new", "VirtualSignBus::sign", "VirtualSign::process_message and handlers", "VirtualSign: Clone"],
+        "2 signs per bus, addresses symbolic and distinct, three pairs of size shapes (two signs mid-transfer included), every message kind (one harness per kind, parameters symbolic), data chunks of 1 and 16 symbolic bytes; one step from arbitrary invariant states covers all interleavings",
+        "buses of more than 2 signs (the bus loop is uniform in the number of signs: stated, not proven); size shapes not listed",
+        [],
+        COMMON_ASSUME
+        + [
+            "pre-states constrained only by vsign::inv_holds (C12)",
+            "'receiving state' = ConfigInProgress or PixelsInProgress; 'observable' = address, state, type, pages",
+            "bus, clones and replies are mem::forget-ed at the end of the harness (drop glue exhausts CBMC memory and is not part of the property)",
+        ],
+        ["c14::"],
+        hs,
+    )
+
+
+PROPS["C14"] = _c14()
